@@ -110,6 +110,25 @@ func c10gen(g *gen, tier string, w *bufio.Writer) {
 			}
 			g.shuffle(df.lines)
 		}
+		if i%3 == 1 && len(df.zones) > 0 {
+			// a client-subnet map WITHOUT a default route, on the zone apex and on every name below it:
+			// a client subnet that no declared subnet covers (source prefix length 0 in particular)
+			// must get the family's default scope 24 / 48, not 0 (seed C10d)
+			var kept []string
+			for _, l := range df.lines {
+				if !strings.HasPrefix(l, "8") {
+					kept = append(kept, l)
+				}
+			}
+			lo := "dd"
+			if len(df.locs) > 0 {
+				lo = g.pick(df.locs)
+			}
+			z := df.zones[0].name
+			kept = append(kept, "8"+z+",e9", "8*."+z+",e9", "%"+lo+",10.0.0.0/8,e9", "%"+lo+",2001:db8::/32,e9")
+			df.lines = kept
+			g.shuffle(df.lines)
+		}
 		qs := g.genQueries(df, 40, true)
 		for _, q := range qs {
 			if g.chance(1, 8) {
